@@ -12,7 +12,7 @@ Driver for C02.
              once `k` entries were simultaneously inside the admission path) from the observed decisions
 
 Ops (`entry` and `par` take an optional last token `type=<t>[,…]`, ignored by model and spec):
-      `clock <ms>` · `load <n> <res,thr,iv,ref[,q<maxQueueMs>]>*n` (thr = `f:<hex16>`, ref = `-` or a resource; a 5th field makes it a
+      `clock <ms>` · `loadres <res> <n> <rule>*n` (`flow.LoadRulesOfResource`; `n = 0` clears) · `load <n> <res,thr,iv,ref[,q<maxQueueMs>]>*n` (thr = `f:<hex16>`, ref = `-` or a resource; a 5th field makes it a
       throttling rule; a later `load` in the same case is a reload, rule ids keep counting) ·
       `entry <res> <batch>` · `par <res> <b0,b1,…> <i0,i1,…>` (schedule of thread ids: first occurrence =
       check phase, second = statistic phase) · `sum <res>` (pass sum of the node's default view, `-` = no node)
@@ -38,7 +38,15 @@ structure DSt where
 
 def DSt.now (st : DSt) : Nat := st.t / nsPerMs
 
+/-- rules that `IsValidRule` rejects for a reason other than the threshold are transported as `thr := .invalid`
+    (the model only needs to know that they are skipped): resource `_` = empty Resource, ref `_` = AssociatedResource with an
+    empty RefResource, ref `?` = an undefined RelationStrategy -/
 def parseRule4 (res thr iv ref : String) : Option Rule :=
+  if res = "_" || ref = "_" || ref = "?" then
+    (if (if thr.startsWith "f:" then parseHex? (thr.drop 2).toString else none).isSome && iv.toNat?.isSome
+        && (res = "_" || res.toNat?.isSome) && (ref = "_" || ref = "?" || ref = "-" || ref.toNat?.isSome)
+      then some { res := res.toNat?.getD 0, thr := .invalid, iv := iv.toNat?.getD 0 } else none)
+  else
     match res.toNat?, (if thr.startsWith "f:" then parseHex? (thr.drop 2).toString else none), iv.toNat? with
     | some res, some bits, some iv =>
       if ref = "-" then some { res := res, thr := Thr.ofBits bits, iv := iv }
@@ -76,12 +84,19 @@ def typeTokOk (tok : String) (n : Nat) : Bool :=
     (let names := (tok.drop 5).toString.splitOn ","
      names.length == n && names.all fun t => ["common", "web", "rpc", "gateway", "dbsql", "cache", "mq"].contains t)
 
-/-- drop a well-formed type token from an `entry` / `par` op -/
-def stripType (ts : List String) : Option (List String) :=
+/-- `entry <res> -` / a `-` among the batches of `par`: the call carries no `WithBatchCount`, i.e. batch 1 -/
+def normBatch (ts : List String) : List String :=
   match ts with
+  | "entry" :: res :: b :: rest => "entry" :: res :: (if b = "-" then "1" else b) :: rest
+  | "par" :: res :: bs :: rest => "par" :: res :: ",".intercalate ((bs.splitOn ",").map fun b => if b = "-" then "1" else b) :: rest
+  | _ => ts
+
+/-- drop a well-formed type token from an `entry` / `par` op (after `normBatch`) -/
+def stripType (ts : List String) : Option (List String) :=
+  match normBatch ts with
   | ["entry", res, b, ty] => if typeTokOk ty 1 then some ["entry", res, b] else none
   | ["par", res, bs, sched, ty] => if typeTokOk ty (bs.splitOn ",").length then some ["par", res, bs, sched] else none
-  | _ => some ts
+  | other => some other
 
 def showD : Option Nat → String
   | none => "pass"
@@ -147,6 +162,10 @@ def stepModel (st : DSt) (ts : List String) : DSt × Option String :=
       | some n, some rules =>
         if n ≠ rules.length then (st, some "bad-op") else modelOp { st with loads := st.loads + 1 } (.load rules)
       | _, _ => (st, some "bad-op")
+  | "loadres" :: res :: n :: rs => match res.toNat?, n.toNat?, parseRules rs with
+      | some res, some n, some rules =>
+        if n ≠ rules.length then (st, some "bad-op") else modelOp { st with loads := st.loads + 1 } (.loadres res rules)
+      | _, _, _ => (st, some "bad-op")
   | ["entry", res, b] => match res.toNat?, b.toNat? with
       | some res, some b => modelOp st (.entry res b)
       | _, _ => (st, some "bad-op")
@@ -177,6 +196,14 @@ def stepSpec (st : DSt) (ts : List String) : DSt × Option String :=
         ({ st with r := r, nrules := st.nrules + rules.length, loads := st.loads + 1, seen := seen,
                    infos := r.ctrls.map (·.info) }, some s!"ok {r.ctrls.length}")
       | _, _ => (st, some "bad-op")
+  | "loadres" :: res :: n :: rs => match res.toNat?, n.toNat?, parseRules rs with
+      | some res, some n, some rules =>
+        if n ≠ rules.length then (st, some "bad-op") else
+        let r := (refStepOp RuleInfo.feed { r := st.r, t := st.t, nrules := st.nrules } (.loadres res rules)).1.r
+        let seen := (rules.filter fun x => x.valid && x.kind == .reject && x.res == res).foldl (fun l x => addSeen l x.src) st.seen
+        ({ st with r := r, nrules := st.nrules + rules.length, loads := st.loads + 1, seen := seen,
+                   infos := r.ctrls.map (·.info) }, some s!"ok {r.ctrls.length}")
+      | _, _, _ => (st, some "bad-op")
   | ["entry", res, b] => match res.toNat?, b.toNat? with
       | some res, some b =>
         -- the as-is reference step is `refStepOp`, the function `Sentinel.C02.runG_eq_ref` is about
@@ -230,6 +257,7 @@ def stepOracle (st : DSt) (ts : List String) (line : String) : DSt × Option Str
   | "load" :: _ :: rs => match parseRules rs with
       | some rules => ({ st with infos := compile rules, loads := st.loads + 1 }, some "ok")
       | none => (st, some "bad-op")
+  | "loadres" :: _ => ({ st with loads := st.loads + 2 }, some "ok")
   | ["entry", res, b] => match res.toNat?, b.toNat?, res? with
       | some res, some b, some (r, w) => match parseD r with
         | none => (st, some "bad-op")
